@@ -27,7 +27,8 @@ ASSUMPTIONS = ['every edit is issued with norm=True and pars in (auto, True) as 
                'a transition that raises is judged by C12, not here']
 OPTS_Q = [{}, {'trivia': False}, {'trivia': ('all', 'all')}, {'pars': True}, {'pep8space': False}]
 OPTS_T = OPTS_Q + [{'trivia': 'all'}, {'trivia': 'block+1'}, {'pep8space': 1}, {'elif_': False}, {'docstr': False},
-                   {'docstr': 'strict'}, {'coerce': False}]
+                   {'docstr': 'strict'}, {'coerce': False}, {'pars_walrus': True}, {'set_norm': 'call'}, {'op_side': 'right'},
+                   {'promote': False}, {'args_as': 'arg'}]
 ALPHA = {
     'quick': [dict(nk=7, nks=3, opts=OPTS_Q), dict(nk=1, nks=1, forms=('src',), opts=({},))],
     'thorough': [dict(nk=16, nks=7, opts=OPTS_T), dict(nk=3, nks=2, forms=('src', 'fst'), opts=({}, {'trivia': False})),
@@ -41,7 +42,7 @@ BOUNDS = {
     'quick': 'depth 1: 47 programs x full alphabet (7 codes/category, 3 slice codes, 3 forms, 5 option settings); '
              'depth 2: every distinct state reached by the 2-code x (src, fst) x 2-option first-level alphabet, expanded with '
              'the 1-code alphabet',
-    'thorough': 'depth 1: all 15 codes, 7 slice codes, 12 option settings; depth 2: 3 codes x 2 forms x 2 option sets from '
+    'thorough': 'depth 1: all 15 codes, 7 slice codes, 17 option settings; depth 2: 3 codes x 2 forms x 2 option sets from '
                 'every distinct depth-1 state; depth 3 on 9 programs with the 1-code alphabet',
 }
 
